@@ -135,6 +135,21 @@ func driveXIBC(t *testing.T, in, out string, seed int64) {
 				line["res"], line["msg"] = resOf(r), clip(r.Log)
 				line["sig"] = "UpdateClient/" + str(st["signer"])
 				line["registered"] = w.Chains[on].App.XIBCKeeper.ClientKeeper.AuthRelayer(w.Chains[on].Ctx(), w.ID[str(st["counter"])], w.Chains[on].Accts[signerIdx(str(st["signer"]))].Acc.String())
+			case "EnableLimit":
+				res, msg := w.EnableLimit(on, str(st["token"]), num(st["cap"]), num(st["max"]), num(st["min"]))
+				if res != "ok" {
+					res = "err"
+				}
+				line["res"], line["msg"], line["sig"] = res, clip(msg), "EnableLimit"
+			case "DisableLimit":
+				res, msg := w.DisableLimit(on, str(st["token"]))
+				if res != "ok" {
+					res = "err"
+				}
+				line["res"], line["msg"], line["sig"] = res, clip(msg), "DisableLimit"
+			case "Elapse":
+				w.Elapse(on)
+				line["res"], line["sig"] = "ok", "Elapse"
 			case "Rotate":
 				res, msg := w.Rotate(on, str(st["counter"]))
 				line["res"], line["msg"], line["sig"] = res, clip(msg), "Rotate"
